@@ -1437,4 +1437,1005 @@ theorem matchIso_digit (t : NumText) (wf : t.WF) (R : List Char) : matchIso (t.t
                 subst this; exact absurd hd (by decide)
     simp [NumText.text, this]
 
+/-! ### timestr_approx as a rendering -/
+
+/-- the rendering `timestr_approx` produces -/
+def approxR (d h m sec frac p : Nat) (omitMin omitSec : Bool) (sep : List Char) : TradR where
+  d := if d ≠ 0 then some (plainPiece [] d) else none
+  h := if d ≠ 0 ∨ h ≠ 0 then some (plainPiece (if d ≠ 0 then sep else []) h) else none
+  m := if omitMin = false ∧ (d ≠ 0 ∨ h ≠ 0 ∨ m ≠ 0)
+    then some (plainPiece (if d ≠ 0 ∨ h ≠ 0 then sep else []) m) else none
+  s := if omitSec = false
+    then some { pre := if d ≠ 0 ∨ h ≠ 0 ∨ (omitMin = false ∧ m ≠ 0) then sep else [],
+                num := fixedNum sec frac p }
+    else none
+  post := []
+
+theorem approxR_text (d h m sec frac p : Nat) (omitMin omitSec : Bool) (sep : List Char) :
+    approxParts d h m sec frac p omitMin omitSec sep =
+      (approxR d h m sec frac p omitMin omitSec sep).text := by
+  unfold approxParts
+  rw [fixedStr_eq]
+  by_cases hd : d = 0 <;> by_cases hh : h = 0 <;> by_cases hm : m = 0 <;>
+    cases omitMin <;> cases omitSec <;>
+    simp [hd, hh, hm, approxR, TradR.text, optText, Piece.text, Piece.letter, plainPiece, joinParts,
+      NumText.text, fracText]
+
+theorem approxR_wf (d h m sec frac p : Nat) (omitMin omitSec : Bool) (sep : List Char)
+    (hs : allWs sep) : (approxR d h m sec frac p omitMin omitSec sep).WF := by
+  have pp : ∀ (c : Prop) [Decidable c] n, ((plainPiece (if c then sep else []) n).WF ∧
+      (plainPiece (if c then sep else []) n).bare = false) := by
+    intro c _ n
+    by_cases hc : c
+    · simp only [hc, ↓reduceIte]; exact plainPiece_wf _ hs _
+    · simp only [hc, ↓reduceIte]; exact plainPiece_wf _ allWs_nil _
+  refine ⟨?_, ?_, ?_, ?_, allWs_nil⟩
+  · intro q hq
+    simp only [approxR] at hq
+    split at hq
+    · cases hq; exact plainPiece_wf _ allWs_nil _
+    · cases hq
+  · intro q hq
+    simp only [approxR] at hq
+    split at hq
+    · cases hq; exact pp _ _
+    · cases hq
+  · intro q hq
+    simp only [approxR] at hq
+    split at hq
+    · cases hq; exact pp _ _
+    · cases hq
+  · intro q hq
+    simp only [approxR] at hq
+    split at hq
+    · cases hq
+      refine ⟨?_, allWs_nil, fixedNum_wf _ _ _⟩
+      simp only
+      split
+      · exact hs
+      · exact allWs_nil
+    · cases hq
+
+theorem approxR_frac (d h m sec frac p : Nat) (omitMin omitSec : Bool) (sep : List Char) :
+    fracSmallestOnly (approxR d h m sec frac p omitMin omitSec sep).nums = true := by
+  by_cases hd : d = 0 <;> by_cases hh : h = 0 <;> by_cases hm : m = 0 <;>
+    cases omitMin <;> cases omitSec <;>
+    simp [hd, hh, hm, approxR, TradR.nums, pnum, fracSmallestOnly, plainPiece, NumText.hasFrac]
+
+/-- `convert` of the parts `timestr_approx` prints: nothing is lost when what is omitted is zero -/
+theorem convert_approxParts (d h m sec frac p : Nat) (omitMin omitSec : Bool) (sep : List Char)
+    (hs : allWs sep) (hfr : frac < 10 ^ p)
+    (hM : omitMin = true → m = 0)
+    (hS : omitSec = true → sec = 0 ∧ frac = 0)
+    (hne : omitSec = false ∨ d ≠ 0 ∨ h ≠ 0 ∨ (omitMin = false ∧ m ≠ 0)) :
+    convert (approxParts d h m sec frac p omitMin omitSec sep) =
+      .ok (86400 * (d : Rat) + 3600 * (h : Rat) + 60 * (m : Rat) +
+        ((sec : Rat) + (frac : Rat) / ((10 ^ p : Nat) : Rat))) := by
+  have hne' : (approxR d h m sec frac p omitMin omitSec sep).NonEmpty := by
+    by_cases hd : d = 0 <;> by_cases hh : h = 0 <;> by_cases hm : m = 0 <;>
+      cases omitMin <;> cases omitSec <;>
+      simp_all [TradR.NonEmpty, approxR, TradR.nums, pnum]
+  rw [approxR_text, convert_trad_sum _ (approxR_wf _ _ _ _ _ _ _ _ _ hs) (approxR_frac _ _ _ _ _ _ _ _ _)
+    hne', scaledSum_trad]
+  congr 1
+  have vd : ntVal (pnum (approxR d h m sec frac p omitMin omitSec sep).d) = (d : Rat) :=
+    ntVal_plain _ _ _ (by omega)
+  have vh : ntVal (pnum (approxR d h m sec frac p omitMin omitSec sep).h) = (h : Rat) :=
+    ntVal_plain _ _ _ (by omega)
+  have vm : ntVal (pnum (approxR d h m sec frac p omitMin omitSec sep).m) = (m : Rat) := by
+    apply ntVal_plain
+    intro hc
+    cases omitMin with
+    | true => exact hM rfl
+    | false => simp at hc; exact hc.2.2
+  have vs : ntVal (pnum (approxR d h m sec frac p omitMin omitSec sep).s) =
+      (sec : Rat) + (frac : Rat) / ((10 ^ p : Nat) : Rat) := by
+    cases omitSec with
+    | false =>
+      simp only [approxR, ↓reduceIte, pnum, Option.map, ntVal]
+      exact fixedNum_val _ _ _ hfr
+    | true =>
+      obtain ⟨h1, h2⟩ := hS rfl
+      subst h1; subst h2
+      simp [approxR, pnum, ntVal]
+      grind
+  rw [vd, vh, vm, vs]
+
+theorem roundHalfEven_intCast (z : Int) : roundHalfEven (z : Rat) = z := by
+  unfold roundHalfEven
+  simp only [Rat.floor_intCast]
+  have : ((z : Int) : Rat) - ((z : Int) : Rat) < 1 / 2 := by grind
+  simp only [this, ↓reduceIte]
+
+/-- a value on the `10^-p` grid is not moved by rounding to `p` places -/
+theorem roundTicks_on_grid (N p : Nat) : roundTicks ((N : Rat) / ((10 ^ p : Nat) : Rat)) p = N := by
+  unfold roundTicks
+  rw [Rat.div_mul_cancel (pow10_rat_ne p)]
+  have : ((N : Nat) : Rat) = ((N : Int) : Rat) := (Rat.intCast_natCast N).symm
+  rw [this, roundHalfEven_intCast]
+  simp
+
+/-- nothing omitted: the parts convert back to `ticks / 10^p` -/
+theorem convert_approxRender_full (a : AVal) (N : Nat) (sep : List Char) (hs : allWs sep)
+    (hN : roundTicks a.v (if a.isFloat then a.sprec else 0) = N) :
+    convert (approxRender ⟨a, false, false⟩ sep) =
+      .ok ((N : Rat) / ((10 ^ (if a.isFloat then a.sprec else 0) : Nat) : Rat)) := by
+  unfold approxRender
+  simp only [hN, Bool.false_eq_true, ↓reduceIte]
+  generalize (if a.isFloat = true then a.sprec else 0) = p
+  have hP := pow10_rat_ne p
+  have hfr : N % 10 ^ p < 10 ^ p := Nat.mod_lt _ (pow10_pos p)
+  rw [convert_approxParts _ _ _ _ _ _ false false sep hs hfr (by intro h; cases h) (by intro h; cases h)
+    (Or.inl rfl)]
+  congr 1
+  generalize hw : N / 10 ^ p = whole
+  generalize hf : N % 10 ^ p = frac
+  have ht : N = 10 ^ p * whole + frac := by rw [← hw, ← hf]; exact (Nat.div_add_mod _ _).symm
+  have e1 : Gen.secPerDay = 86400 := rfl
+  have e2 : Gen.secPerHour = 3600 := rfl
+  have e3 : Gen.secPerMin = 60 := rfl
+  simp only [e1, e2, e3]
+  have hwd : whole = 86400 * (whole / 86400) + 3600 * (whole % 86400 / 3600)
+      + 60 * (whole % 86400 % 3600 / 60) + whole % 86400 % 3600 % 60 := by omega
+  generalize whole / 86400 = d at hwd ⊢
+  generalize whole % 86400 / 3600 = h at hwd ⊢
+  generalize whole % 86400 % 3600 / 60 = m at hwd ⊢
+  generalize whole % 86400 % 3600 % 60 = sec at hwd ⊢
+  have htq : (N : Rat) = ((10 ^ p : Nat) : Rat) * (whole : Rat) + (frac : Rat) := by
+    rw [ht]; push_cast; rfl
+  have hwq : (whole : Rat) = 86400 * (d : Rat) + 3600 * (h : Rat) + 60 * (m : Rat) + (sec : Rat) := by
+    rw [hwd]; push_cast; rfl
+  grind
+
+/-- an integer value with seconds (and minutes) omitted: nothing is lost when it is a multiple of a
+    minute (an hour) -/
+theorem convert_approxRender_int (k : Nat) (omitMin omitSec : Bool) (sep : List Char) (hs : allWs sep)
+    (hS : omitSec = true → k % 60 = 0 ∧ 60 ≤ k)
+    (hM : omitMin = true → k % 3600 = 0 ∧ 3600 ≤ k ∧ omitSec = true) :
+    convert (approxRender ⟨⟨(k : Rat), false, 0⟩, omitMin, omitSec⟩ sep) = .ok (k : Rat) := by
+  have hN : roundTicks (k : Rat) 0 = k := by
+    have := roundTicks_on_grid k 0
+    have e : (k : Rat) / ((10 ^ 0 : Nat) : Rat) = (k : Rat) := by grind
+    rwa [e] at this
+  unfold approxRender
+  simp only [Bool.false_eq_true, ↓reduceIte, hN, Nat.pow_zero, Nat.div_one, Nat.mod_one]
+  have e1 : Gen.secPerDay = 86400 := rfl
+  have e2 : Gen.secPerHour = 3600 := rfl
+  have e3 : Gen.secPerMin = 60 := rfl
+  simp only [e1, e2, e3]
+  cases omitMin with
+  | true =>
+    obtain ⟨h1, h2, h3⟩ := hM rfl
+    subst h3
+    simp only [↓reduceIte]
+    rw [convert_approxParts _ _ 0 _ 0 0 true true sep hs (by decide) (fun _ => rfl)
+      (fun _ => ⟨by omega, rfl⟩) (by right; omega)]
+    congr 1
+    have hk : k = 86400 * (k / 86400) + 3600 * (k % 86400 / 3600) + k % 86400 % 3600 := by omega
+    generalize k / 86400 = d at hk ⊢
+    generalize k % 86400 / 3600 = h at hk ⊢
+    generalize k % 86400 % 3600 = sec at hk ⊢
+    have hq : (k : Rat) = 86400 * (d : Rat) + 3600 * (h : Rat) + (sec : Rat) := by
+      rw [hk]; push_cast; rfl
+    rw [hq]
+    have z : ((0 : Nat) : Rat) = 0 := rfl
+    rw [z]
+    grind
+  | false =>
+    simp only [Bool.false_eq_true, ↓reduceIte]
+    rw [convert_approxParts _ _ _ _ 0 0 false omitSec sep hs (by decide) (by intro h; cases h)
+      (fun h => ⟨by have := hS h; omega, rfl⟩)
+      (by
+        cases omitSec with
+        | false => exact Or.inl rfl
+        | true =>
+          have := hS rfl
+          by_cases hd : k / 86400 = 0
+          · by_cases hh : k % 86400 / 3600 = 0
+            · right; right; right; exact ⟨rfl, by omega⟩
+            · right; right; left; exact hh
+          · right; left; exact hd)]
+    congr 1
+    have hk : k = 86400 * (k / 86400) + 3600 * (k % 86400 / 3600) + 60 * (k % 86400 % 3600 / 60)
+        + k % 86400 % 3600 % 60 := by omega
+    generalize k / 86400 = d at hk ⊢
+    generalize k % 86400 / 3600 = h at hk ⊢
+    generalize k % 86400 % 3600 / 60 = m at hk ⊢
+    generalize k % 86400 % 3600 % 60 = sec at hk ⊢
+    have hq : (k : Rat) = 86400 * (d : Rat) + 3600 * (h : Rat) + 60 * (m : Rat) + (sec : Rat) := by
+      rw [hk]; push_cast; rfl
+    rw [hq]
+    have z : ((0 : Nat) : Rat) = 0 := rfl
+    rw [z]
+    grind
+
+/-! ### the rounding chain of timestr_approx -/
+
+theorem roundHalfEven_le_of_lt (x : Rat) (M : Int) (h : x < (M : Rat)) : roundHalfEven x ≤ M := by
+  have hf : x.floor < M := Rat.floor_lt_iff.mpr h
+  rcases roundHalfEven_cases x with e | e <;> omega
+
+theorem le_roundHalfEven_of_le (x : Rat) (K : Int) (h : (K : Rat) ≤ x) : K ≤ roundHalfEven x := by
+  have hf : K ≤ x.floor := Rat.le_floor_iff.mpr h
+  rcases roundHalfEven_cases x with e | e <;> omega
+
+theorem roundTicks_le_of_lt (q : Rat) (p M : Nat) (h : q * ((10 ^ p : Nat) : Rat) < (M : Rat)) :
+    roundTicks q p ≤ M := by
+  unfold roundTicks
+  have := roundHalfEven_le_of_lt _ (M : Int) (by rw [Rat.intCast_natCast]; exact h)
+  omega
+
+def OnGrid (a : AVal) : Prop :=
+  ∃ N : Nat, a.v = (N : Rat) / ((10 ^ (if a.isFloat then a.sprec else 0) : Nat) : Rat)
+
+theorem roundTo_on_grid (N p : Nat) :
+    roundTo ((N : Rat) / ((10 ^ p : Nat) : Rat)) p = (N : Rat) / ((10 ^ p : Nat) : Rat) := by
+  unfold roundTo
+  rw [roundTicks_on_grid]
+
+def fstep1 (q : Rat) : AVal := if q < 1 then ⟨roundTo q 3, true, 3⟩ else ⟨q, true, 0⟩
+def fstep2 (a : AVal) : AVal := if 1 ≤ a.v ∧ a.v < 10 then ⟨roundTo a.v 2, true, 2⟩ else a
+def fstep3 (a : AVal) : AVal := if 10 ≤ a.v ∧ a.v < 60 then ⟨roundTo a.v 1, true, 1⟩ else a
+def fstep4 (a : AVal) : AVal :=
+  if 60 ≤ a.v ∧ a.v < ((10 * Gen.secPerHour : Nat) : Rat)
+  then ⟨((roundHalfEven a.v).toNat : Rat), false, 0⟩ else a
+
+theorem approxFloat_eq (q : Rat) : approxFloat q = fstep4 (fstep3 (fstep2 (fstep1 q))) := rfl
+
+theorem fstep2_skip (a : AVal) (h : a.v < 1 ∨ 10 ≤ a.v) : fstep2 a = a := by
+  have : ¬ (1 ≤ a.v ∧ a.v < 10) := by grind
+  simp [fstep2, this]
+
+theorem fstep3_skip (a : AVal) (h : a.v < 10 ∨ 60 ≤ a.v) : fstep3 a = a := by
+  have : ¬ (10 ≤ a.v ∧ a.v < 60) := by grind
+  simp [fstep3, this]
+
+theorem c36000 : ((10 * Gen.secPerHour : Nat) : Rat) = 36000 := by decide
+
+theorem fstep4_skip (a : AVal) (h : a.v < 60 ∨ 36000 ≤ a.v) : fstep4 a = a := by
+  have : ¬ (60 ≤ a.v ∧ a.v < ((10 * Gen.secPerHour : Nat) : Rat)) := by rw [c36000]; grind
+  unfold fstep4
+  rw [if_neg this]
+
+theorem p3 : ((10 ^ 3 : Nat) : Rat) = 1000 := by decide
+theorem p2 : ((10 ^ 2 : Nat) : Rat) = 100 := by decide
+theorem p1 : ((10 ^ 1 : Nat) : Rat) = 10 := by decide
+
+/-- what one decimal rounding of the chain does: a value on the grid, not above the class limit,
+    within half a unit of the last place -/
+theorem roundTo_class (q : Rat) (hq : 0 ≤ q) (p P B : Nat) (hP : ((10 ^ p : Nat) : Rat) = (P : Rat))
+    (hP0 : 0 < P) (hB : q < (B : Rat)) :
+    ∃ N : Nat, roundTo q p = (N : Rat) / ((10 ^ p : Nat) : Rat) ∧ N ≤ B * P ∧
+      roundTo q p - q ≤ 1 / (2 * (P : Rat)) ∧ q - roundTo q p ≤ 1 / (2 * (P : Rat)) := by
+  obtain ⟨_, b1, b2⟩ := roundTicks_bounds q hq p
+  refine ⟨roundTicks q p, rfl, ?_, ?_, ?_⟩
+  · apply roundTicks_le_of_lt
+    rw [hP]
+    have hPq : (0 : Rat) < (P : Rat) := Rat.natCast_pos.mpr hP0
+    have := Rat.mul_lt_mul_of_pos_right hB hPq
+    have e : ((B * P : Nat) : Rat) = (B : Rat) * (P : Rat) := by push_cast; rfl
+    rw [e]; exact this
+  · unfold roundTo; rw [hP] at b1 ⊢; exact b1
+  · unfold roundTo; rw [hP] at b2 ⊢; exact b2
+
+/-- what the float part of `timestr_approx` delivers for `q` below 10 hours: a non-negative value on
+    its decimal grid, within `half` of `q`, below 10 hours or exactly the integer 36000 -/
+def FloatSpec (q : Rat) (a : AVal) (half : Rat) : Prop :=
+  0 ≤ a.v ∧ a.v - q ≤ half ∧ q - a.v ≤ half ∧ OnGrid a ∧
+    (a.v < 36000 ∨ a = ⟨((36000 : Nat) : Rat), false, 0⟩)
+
+theorem class1 (q : Rat) (hq : 0 ≤ q) (h : q < 1) : FloatSpec q (approxFloat q) (1 / 2000) := by
+  rw [approxFloat_eq]
+  have e1 : fstep1 q = ⟨roundTo q 3, true, 3⟩ := by simp [fstep1, h]
+  rw [e1]
+  obtain ⟨N, hv, hN, b1, b2⟩ := roundTo_class q hq 3 1000 1 (by decide) (by decide)
+    (by simpa using h)
+  have hh : (1 : Rat) / (2 * ((1000 : Nat) : Rat)) = 1 / 2000 := by decide +kernel
+  rw [hh] at b1 b2
+  have hN0 : (0 : Rat) ≤ (N : Rat) := by exact_mod_cast Nat.zero_le N
+  by_cases hc : N < 1000
+  · have hNq : (N : Rat) < 1000 := by exact_mod_cast hc
+    have hv1 : roundTo q 3 < 1 := by rw [hv, p3]; grind
+    have hv0 : 0 ≤ roundTo q 3 := by rw [hv, p3]; grind
+    rw [fstep2_skip _ (Or.inl hv1), fstep3_skip _ (Or.inl (by simp only; grind)),
+      fstep4_skip _ (Or.inl (by simp only; grind))]
+    exact ⟨hv0, b1, b2, ⟨N, hv⟩, Or.inl (by simp only; grind)⟩
+  · have hN' : N = 1000 := by omega
+    subst hN'
+    have hv1 : roundTo q 3 = 1 := by rw [hv]; decide +kernel
+    rw [hv1] at b1 b2 ⊢
+    have : fstep4 (fstep3 (fstep2 ⟨1, true, 3⟩)) = ⟨1, true, 2⟩ := by decide +kernel
+    rw [this]
+    exact ⟨by decide, b1, b2, ⟨100, by decide +kernel⟩, Or.inl (by decide)⟩
+
+theorem class2 (q : Rat) (h1 : 1 ≤ q) (h : q < 10) : FloatSpec q (approxFloat q) (1 / 200) := by
+  have hq : 0 ≤ q := by grind
+  rw [approxFloat_eq]
+  have e1 : fstep1 q = ⟨q, true, 0⟩ := by
+    have : ¬ q < 1 := by grind
+    simp [fstep1, this]
+  have e2 : fstep2 ⟨q, true, 0⟩ = ⟨roundTo q 2, true, 2⟩ := by simp [fstep2, h1, h]
+  rw [e1, e2]
+  obtain ⟨N, hv, hN, b1, b2⟩ := roundTo_class q hq 2 100 10 (by decide) (by decide)
+    (by simpa using h)
+  have hh : (1 : Rat) / (2 * ((100 : Nat) : Rat)) = 1 / 200 := by decide +kernel
+  rw [hh] at b1 b2
+  have hN0 : (0 : Rat) ≤ (N : Rat) := by exact_mod_cast Nat.zero_le N
+  by_cases hc : N < 1000
+  · have hNq : (N : Rat) < 1000 := by exact_mod_cast hc
+    have hv1 : roundTo q 2 < 10 := by rw [hv, p2]; grind
+    have hv0 : 0 ≤ roundTo q 2 := by rw [hv, p2]; grind
+    rw [fstep3_skip _ (Or.inl hv1), fstep4_skip _ (Or.inl (by simp only; grind))]
+    exact ⟨hv0, b1, b2, ⟨N, hv⟩, Or.inl (by simp only; grind)⟩
+  · have hN' : N = 1000 := by omega
+    subst hN'
+    have hv1 : roundTo q 2 = 10 := by rw [hv]; decide +kernel
+    rw [hv1] at b1 b2 ⊢
+    have : fstep4 (fstep3 ⟨10, true, 2⟩) = ⟨10, true, 1⟩ := by decide +kernel
+    rw [this]
+    exact ⟨by decide, b1, b2, ⟨100, by decide +kernel⟩, Or.inl (by decide)⟩
+
+theorem class3 (q : Rat) (h1 : 10 ≤ q) (h : q < 60) : FloatSpec q (approxFloat q) (1 / 20) := by
+  have hq : 0 ≤ q := by grind
+  rw [approxFloat_eq]
+  have e1 : fstep1 q = ⟨q, true, 0⟩ := by
+    have : ¬ q < 1 := by grind
+    simp [fstep1, this]
+  have e3 : fstep3 ⟨q, true, 0⟩ = ⟨roundTo q 1, true, 1⟩ := by simp [fstep3, h1, h]
+  rw [e1, fstep2_skip _ (Or.inr h1), e3]
+  obtain ⟨N, hv, hN, b1, b2⟩ := roundTo_class q hq 1 10 60 (by decide) (by decide)
+    (by simpa using h)
+  have hh : (1 : Rat) / (2 * ((10 : Nat) : Rat)) = 1 / 20 := by decide +kernel
+  rw [hh] at b1 b2
+  have hN0 : (0 : Rat) ≤ (N : Rat) := by exact_mod_cast Nat.zero_le N
+  by_cases hc : N < 600
+  · have hNq : (N : Rat) < 600 := by exact_mod_cast hc
+    have hv1 : roundTo q 1 < 60 := by rw [hv, p1]; grind
+    have hv0 : 0 ≤ roundTo q 1 := by rw [hv, p1]; grind
+    rw [fstep4_skip _ (Or.inl hv1)]
+    exact ⟨hv0, b1, b2, ⟨N, hv⟩, Or.inl (by simp only; grind)⟩
+  · have hN' : N = 600 := by omega
+    subst hN'
+    have hv1 : roundTo q 1 = 60 := by rw [hv]; decide +kernel
+    rw [hv1] at b1 b2 ⊢
+    have : fstep4 ⟨60, true, 1⟩ = ⟨60, false, 0⟩ := by decide +kernel
+    rw [this]
+    exact ⟨by decide, b1, b2, ⟨60, by decide +kernel⟩, Or.inl (by decide)⟩
+
+theorem class4 (q : Rat) (h1 : 60 ≤ q) (h : q < 36000) : FloatSpec q (approxFloat q) (1 / 2) := by
+  have hq : 0 ≤ q := by grind
+  rw [approxFloat_eq]
+  have e1 : fstep1 q = ⟨q, true, 0⟩ := by
+    have : ¬ q < 1 := by grind
+    simp [fstep1, this]
+  have e4 : fstep4 ⟨q, true, 0⟩ = ⟨((roundHalfEven q).toNat : Rat), false, 0⟩ := by
+    unfold fstep4
+    rw [if_pos ⟨h1, by rw [c36000]; exact h⟩]
+  rw [e1, fstep2_skip _ (Or.inr (by simp only; grind)), fstep3_skip _ (Or.inr h1), e4]
+  have hnn := roundHalfEven_nonneg q hq
+  have hb := roundHalfEven_bounds q
+  have hle := roundHalfEven_le_of_lt q 36000 (by simpa using h)
+  have hc : (((roundHalfEven q).toNat : Nat) : Rat) = ((roundHalfEven q : Int) : Rat) := by
+    have := Int.toNat_of_nonneg hnn
+    exact_mod_cast congrArg (fun z : Int => (z : Rat)) this
+  generalize hk : (roundHalfEven q).toNat = k at hc
+  have hk36 : k ≤ 36000 := by omega
+  rw [← hc] at hb
+  have hk0 : (0 : Rat) ≤ (k : Rat) := by exact_mod_cast Nat.zero_le k
+  refine ⟨hk0, hb.1, hb.2, ⟨k, ?_⟩, ?_⟩
+  · simp only [Bool.false_eq_true, ↓reduceIte]
+    have : ((10 ^ 0 : Nat) : Rat) = 1 := by decide
+    rw [this]
+    grind
+  · by_cases hlt : k < 36000
+    · left
+      have : (k : Rat) < 36000 := by exact_mod_cast hlt
+      exact this
+    · right
+      have : k = 36000 := by omega
+      rw [this]
+
+theorem approxFloat_large (q : Rat) (h : 36000 ≤ q) : approxFloat q = ⟨q, true, 0⟩ := by
+  rw [approxFloat_eq]
+  have e1 : fstep1 q = ⟨q, true, 0⟩ := by
+    have : ¬ q < 1 := by grind
+    simp [fstep1, this]
+  rw [e1, fstep2_skip _ (Or.inr (by simp only; grind)), fstep3_skip _ (Or.inr (by simp only; grind)),
+    fstep4_skip _ (Or.inr h)]
+
+/-- the three shapes of what the coarse part of `timestr_approx` returns -/
+theorem approxCoarse_cases (a : AVal) (hv : 0 ≤ a.v) :
+    (a.v < 36000 → approxCoarse a = ⟨a, false, false⟩) ∧
+    (36000 ≤ a.v → a.v < 864000 → ∃ k : Nat, k % 60 = 0 ∧ 60 ≤ k ∧
+      ((k < 864000 ∧ approxCoarse a = ⟨⟨(k : Rat), false, 0⟩, false, true⟩) ∨
+       (k = 864000 ∧ approxCoarse a = ⟨⟨((864000 : Nat) : Rat), false, 0⟩, true, true⟩))) ∧
+    (864000 ≤ a.v → ∃ k : Nat, k % 3600 = 0 ∧ 3600 ≤ k ∧
+      approxCoarse a = ⟨⟨(k : Rat), false, 0⟩, true, true⟩) := by
+  have c1 : ((10 * 3600 : Nat) : Rat) = 36000 := by decide
+  have c2 : ((10 * 86400 : Nat) : Rat) = 864000 := by decide
+  have e1 : Gen.secPerDay = 86400 := rfl
+  have e2 : Gen.secPerHour = 3600 := rfl
+  have e3 : Gen.secPerMin = 60 := rfl
+  unfold approxCoarse
+  simp only [e1, e2, e3, c1, c2]
+  refine ⟨?_, ?_, ?_⟩
+  · intro h
+    have n1 : ¬ ((36000 : Rat) ≤ a.v ∧ a.v < 864000) := by grind
+    have n2 : ¬ ((864000 : Rat) ≤ a.v) := by grind
+    simp only [n1, ↓reduceIte, n2]
+  · intro h1 h2
+    have p1 : (36000 : Rat) ≤ a.v ∧ a.v < 864000 := ⟨h1, h2⟩
+    simp only [p1, and_self, ↓reduceIte]
+    have hb := roundUnit_bounds a.v hv 60 (by decide)
+    have h60 : ((60 : Nat) : Rat) / 2 = 30 := by grind
+    rw [h60] at hb
+    have hge : (35970 : Rat) ≤ (roundUnit a.v 60 : Rat) := by grind
+    have hge' : 35970 ≤ roundUnit a.v 60 := by exact_mod_cast hge
+    have hmod : roundUnit a.v 60 % 60 = 0 := by unfold roundUnit; exact Nat.mul_mod_right _ _
+    refine ⟨roundUnit a.v 60, hmod, by omega, ?_⟩
+    by_cases hc : (864000 : Rat) ≤ (roundUnit a.v 60 : Rat)
+    · right
+      simp only [hc, ↓reduceIte]
+      have hlt : (roundUnit a.v 60 : Rat) < 864030 := by grind
+      have hlt' : roundUnit a.v 60 < 864030 := by exact_mod_cast hlt
+      have hge2 : 864000 ≤ roundUnit a.v 60 := by exact_mod_cast hc
+      have hm : roundUnit a.v 60 = 3600 * 240 := by omega
+      refine ⟨hm, ?_⟩
+      rw [hm, roundUnit_multiple 3600 240 (by decide)]
+      rfl
+    · left
+      simp only [hc, ↓reduceIte]
+      have : (roundUnit a.v 60 : Rat) < 864000 := by grind
+      exact ⟨by exact_mod_cast this, trivial⟩
+  · intro h
+    have n1 : ¬ ((36000 : Rat) ≤ a.v ∧ a.v < 864000) := by grind
+    simp only [n1, ↓reduceIte, h]
+    have hb := roundUnit_bounds a.v hv 3600 (by decide)
+    have h3600 : ((3600 : Nat) : Rat) / 2 = 1800 := by grind
+    rw [h3600] at hb
+    have hge : (3600 : Rat) ≤ (roundUnit a.v 3600 : Rat) := by grind
+    have hge' : 3600 ≤ roundUnit a.v 3600 := by exact_mod_cast hge
+    have hmod : roundUnit a.v 3600 % 3600 = 0 := by unfold roundUnit; exact Nat.mul_mod_right _ _
+    exact ⟨roundUnit a.v 3600, hmod, hge', rfl⟩
+
+/-- **the approximate rendering converts back to the value it stands for** -/
+theorem convert_approxRender_coarse (a : AVal) (hv : 0 ≤ a.v) (hg : a.v < 36000 → OnGrid a)
+    (sep : List Char) (hs : allWs sep) :
+    convert (approxRender (approxCoarse a) sep) = .ok (approxCoarse a).a.v := by
+  obtain ⟨k1, k2, k3⟩ := approxCoarse_cases a hv
+  by_cases c1 : a.v < 36000
+  · rw [k1 c1]
+    obtain ⟨N, hN⟩ := hg c1
+    have hr : roundTicks a.v (if a.isFloat then a.sprec else 0) = N := by
+      rw [hN]; exact roundTicks_on_grid _ _
+    rw [convert_approxRender_full a N sep hs hr, ← hN]
+  · by_cases c2 : a.v < 864000
+    · obtain ⟨k, hm, hk, hcase⟩ := k2 (by grind) c2
+      rcases hcase with ⟨_, e⟩ | ⟨hk8, e⟩
+      · rw [e]
+        exact convert_approxRender_int k false true sep hs (fun _ => ⟨hm, hk⟩) (by intro h; cases h)
+      · rw [e]
+        exact convert_approxRender_int 864000 true true sep hs (fun _ => ⟨by decide, by decide⟩)
+          (fun _ => ⟨by decide, by decide, rfl⟩)
+    · obtain ⟨k, hm, hk, e⟩ := k3 (by grind)
+      rw [e]
+      exact convert_approxRender_int k true true sep hs (fun _ => ⟨by omega, by omega⟩)
+        (fun _ => ⟨hm, hk, rfl⟩)
+
+/-- the number a `timestr`/`timestr_approx` argument stands for -/
+def Secs.val : Secs → Rat
+  | .int n => (n : Rat)
+  | .float q => q
+
+theorem approxCoarse_36000 :
+    (approxCoarse ⟨((36000 : Nat) : Rat), false, 0⟩).a.v = 36000 := by decide +kernel
+
+/-! ### a well-formed beginning followed by something that cannot go on -/
+
+theorem blocked_opt' (isU : Char → Bool) (lo up : Char) (L : Letters lo up)
+    (hlo : isU lo = false) (hup : isU up = false) (p : Option Piece) (wf : OptWF p)
+    (tail : List Char) (ht : p.isSome = true ∨ Blocked isU tail) : Blocked isU (optText lo up p ++ tail) := by
+  cases p with
+  | none =>
+    rcases ht with h | h
+    · cases h
+    · simpa [optText] using h
+  | some q => exact blocked_piece isU lo up L hlo hup q (wf q rfl).1 (wf q rfl).2 tail
+
+theorem stage' (isU : Char → Bool) (lo up : Char) (L : Letters lo up)
+    (hlo : isU lo = true) (hup : isU up = true) (p : Option Piece) (wf : OptWF p)
+    (tail : List Char) (ht : p = none → Blocked isU tail) :
+    ∃ r, optGroup true isU (skipWs (optText lo up p ++ tail)) = (p.map (·.num.num), r) ∧
+      skipWs r = skipWs tail := by
+  cases p with
+  | none => exact ⟨skipWs tail, by simpa [optText, Blocked] using ht rfl, skipWs_idem _⟩
+  | some q =>
+    refine ⟨tail, ?_, rfl⟩
+    simp only [optText, Option.map]
+    rw [optGroup_piece isU lo up L q (wf q rfl).1 (wf q rfl).2 tail]
+    cases q.upper <;> simp [hlo, hup]
+
+theorem optGroupLast_piece (isU : Char → Bool) (lo up : Char) (L : Letters lo up)
+    (hlo : isU lo = true) (hup : isU up = true) (q : Piece) (wf : q.WF) (hb : q.bare = false)
+    (tail : List Char) :
+    optGroupLast isU (skipWs (q.text lo up ++ tail)) = (some q.num.num, tail) := by
+  obtain ⟨hpre, hmid, hnum⟩ := wf
+  have e : q.text lo up ++ tail =
+      q.pre ++ (q.num.text ++ (q.mid ++ ((if q.upper then up else lo) :: tail))) := by
+    simp [Piece.text, Piece.letter, hb]
+  have hl : isWs (if q.upper then up else lo) = false := by
+    cases q.upper <;> simp [L.lo_ws, L.up_ws]
+  have hle : numEnd (if q.upper then up else lo) = true := by
+    cases q.upper <;> simp [L.lo_end, L.up_end]
+  have hu : isU (if q.upper then up else lo) = true := by
+    cases q.upper <;> simp [hlo, hup]
+  rw [e, skipWs_append_ws _ _ hpre, NumText.text_skipWs _ hnum]
+  rw [optGroupLast_text isU _ hnum _ (headSat_mid _ _ hmid (by simpa [headSat] using hle))]
+  simp [skipWs_append_ws _ _ hmid, skipWs_cons_of_not_ws _ hl, hu]
+
+/-- a beginning of a traditional duration string: pieces with their unit letters -/
+structure TradP where
+  d : Option Piece := none
+  h : Option Piece := none
+  m : Option Piece := none
+  s : Option Piece := none
+
+namespace TradP
+
+def text (r : TradP) (tail : List Char) : List Char :=
+  optText 'd' 'D' r.d ++ (optText 'h' 'H' r.h ++ (optText 'm' 'M' r.m ++ (optText 's' 'S' r.s ++ tail)))
+
+def WF (r : TradP) : Prop := OptWF r.d ∧ OptWF r.h ∧ OptWF r.m ∧ OptWF r.s
+
+end TradP
+
+/-- If after the pieces that are there, no group that is still allowed can start at `tail`
+    (for every unit: a piece of that or a later unit is there, or `tail` does not start with a group
+    of that unit) and `tail` is not blank, the traditional expression does not match. -/
+theorem matchTrad_bad_tail (r : TradP) (wf : r.WF) (tail : List Char)
+    (hd : r.d.isSome = true ∨ r.h.isSome = true ∨ r.m.isSome = true ∨ r.s.isSome = true ∨ Blocked isD tail)
+    (hh : r.h.isSome = true ∨ r.m.isSome = true ∨ r.s.isSome = true ∨ Blocked isH tail)
+    (hm : r.m.isSome = true ∨ r.s.isSome = true ∨ Blocked isM tail)
+    (ht : skipWs tail ≠ [])
+    (hs : r.s.isSome = true ∨ ∃ g r', optGroupLast isS (skipWs tail) = (g, r') ∧ skipWs r' ≠ []) :
+    matchTrad (r.text tail) = none := by
+  obtain ⟨wd, wh, wm, wsec⟩ := wf
+  have bS : ∀ isU, isU 's' = false → isU 'S' = false → (r.s.isSome = true ∨ Blocked isU tail) →
+      Blocked isU (optText 's' 'S' r.s ++ tail) :=
+    fun isU a b c => blocked_opt' isU 's' 'S' lettersS a b r.s wsec tail c
+  have bM : ∀ isU, isU 'm' = false → isU 'M' = false → isU 's' = false → isU 'S' = false →
+      (r.m.isSome = true ∨ r.s.isSome = true ∨ Blocked isU tail) →
+      Blocked isU (optText 'm' 'M' r.m ++ (optText 's' 'S' r.s ++ tail)) := by
+    intro isU a b c d e
+    apply blocked_opt' isU 'm' 'M' lettersM a b r.m wm
+    rcases e with e | e
+    · exact Or.inl e
+    · exact Or.inr (bS isU c d e)
+  have bH : Blocked isD (optText 'h' 'H' r.h ++ (optText 'm' 'M' r.m ++ (optText 's' 'S' r.s ++ tail))) ∨
+      r.d.isSome = true := by
+    rcases hd with h | h
+    · exact Or.inr h
+    · left
+      apply blocked_opt' isD 'h' 'H' lettersH (by decide) (by decide) r.h wh
+      rcases h with h | h
+      · exact Or.inl h
+      · exact Or.inr (bM isD (by decide) (by decide) (by decide) (by decide) h)
+  obtain ⟨r0, e0, s0⟩ := stage' isD 'd' 'D' lettersD (by decide) (by decide) r.d wd _ (by
+    intro hn
+    rcases bH with h | h
+    · exact h
+    · rw [hn] at h; cases h)
+  obtain ⟨r1, e1, s1⟩ := stage' isH 'h' 'H' lettersH (by decide) (by decide) r.h wh _ (by
+    intro hn
+    rcases hh with h | h
+    · rw [hn] at h; cases h
+    · exact bM isH (by decide) (by decide) (by decide) (by decide) h)
+  obtain ⟨r2, e2, s2⟩ := stage' isM 'm' 'M' lettersM (by decide) (by decide) r.m wm _ (by
+    intro hn
+    rcases hm with h | h
+    · rw [hn] at h; cases h
+    · exact bS isM (by decide) (by decide) h)
+  unfold matchTrad TradP.text
+  simp only [e0, s0, e1, s1, e2, s2]
+  cases hsec : r.s with
+  | some q =>
+    have := optGroupLast_piece isS 's' 'S' lettersS (by decide) (by decide) q (wsec q hsec).1
+      (wsec q hsec).2 tail
+    simp only [optText, this]
+    cases hq : skipWs tail with
+    | nil => exact absurd hq ht
+    | cons c cs => simp
+  | none =>
+    rcases hs with h | ⟨g, r', h1, h2⟩
+    · rw [hsec] at h; cases h
+    · simp only [optText, List.nil_append, h1]
+      cases hq : skipWs r' with
+      | nil => exact absurd hq h2
+      | cons c cs => simp
+
+/-! ### units of the traditional format, misplaced pieces, a second decimal mark -/
+
+inductive TUnit where
+  | d | h | m | s
+  deriving DecidableEq, Repr
+
+namespace TUnit
+def lo : TUnit → Char | .d => 'd' | .h => 'h' | .m => 'm' | .s => 's'
+def up : TUnit → Char | .d => 'D' | .h => 'H' | .m => 'M' | .s => 'S'
+theorem letters (u : TUnit) : Letters u.lo u.up := by
+  cases u <;> exact ⟨by decide, by decide, by decide, by decide⟩
+end TUnit
+
+/-- a piece of unit `v` or of a smaller unit is there -/
+def TradP.hasFrom (r : TradP) : TUnit → Bool
+  | .d => r.d.isSome || r.h.isSome || r.m.isSome || r.s.isSome
+  | .h => r.h.isSome || r.m.isSome || r.s.isSome
+  | .m => r.m.isSome || r.s.isSome
+  | .s => r.s.isSome
+
+theorem skipWs_piece_ne_nil (q : Piece) (wf : q.WF) (lo up : Char) (rest : List Char) :
+    skipWs (q.text lo up ++ rest) ≠ [] := by
+  obtain ⟨hpre, _, hnum⟩ := wf
+  have e : q.text lo up ++ rest = q.pre ++ (q.num.text ++ ((q.mid ++ q.letter lo up) ++ rest)) := by
+    simp [Piece.text]
+  rw [e, skipWs_append_ws _ _ hpre, NumText.text_skipWs _ hnum]
+  intro h
+  have := text_ne_nil q.num hnum ((q.mid ++ q.letter lo up) ++ rest)
+  rw [h] at this
+  cases this
+
+theorem matchIso_piece (q : Piece) (wf : q.WF) (lo up : Char) (rest : List Char) :
+    matchIso (q.text lo up ++ rest) = none := by
+  obtain ⟨hpre, _, hnum⟩ := wf
+  have e : q.text lo up ++ rest = q.pre ++ (q.num.text ++ ((q.mid ++ q.letter lo up) ++ rest)) := by
+    simp [Piece.text]
+  have h1 := matchIso_digit q.num hnum ((q.mid ++ q.letter lo up) ++ rest)
+  unfold matchIso at h1 ⊢
+  rw [e, skipWs_append_ws _ _ hpre]
+  exact h1
+
+/-- the ISO expression does not match a string that begins like a traditional one -/
+theorem matchIso_tradP (r : TradP) (wf : r.WF) (tail : List Char) (ht : matchIso tail = none) :
+    matchIso (r.text tail) = none := by
+  obtain ⟨wd, wh, wm, wsec⟩ := wf
+  unfold TradP.text
+  cases hd : r.d with
+  | some q => exact matchIso_piece q (wd q hd).1 _ _ _
+  | none =>
+    cases hh : r.h with
+    | some q => exact matchIso_piece q (wh q hh).1 _ _ _
+    | none =>
+      cases hm : r.m with
+      | some q => exact matchIso_piece q (wm q hm).1 _ _ _
+      | none =>
+        cases hs : r.s with
+        | some q => exact matchIso_piece q (wsec q hs).1 _ _ _
+        | none => simpa [optText] using ht
+
+theorem optGroupLast_piece_other (isU : Char → Bool) (lo up : Char) (L : Letters lo up)
+    (hlo : isU lo = false) (hup : isU up = false) (q : Piece) (wf : q.WF) (hb : q.bare = false)
+    (tail : List Char) :
+    optGroupLast isU (skipWs (q.text lo up ++ tail)) =
+      (some q.num.num, (if q.upper then up else lo) :: tail) := by
+  obtain ⟨hpre, hmid, hnum⟩ := wf
+  have e : q.text lo up ++ tail =
+      q.pre ++ (q.num.text ++ (q.mid ++ ((if q.upper then up else lo) :: tail))) := by
+    simp [Piece.text, Piece.letter, hb]
+  have hl : isWs (if q.upper then up else lo) = false := by
+    cases q.upper <;> simp [L.lo_ws, L.up_ws]
+  have hle : numEnd (if q.upper then up else lo) = true := by
+    cases q.upper <;> simp [L.lo_end, L.up_end]
+  have hu : isU (if q.upper then up else lo) = false := by
+    cases q.upper <;> simp [hlo, hup]
+  rw [e, skipWs_append_ws _ _ hpre, NumText.text_skipWs _ hnum]
+  rw [optGroupLast_text isU _ hnum _ (headSat_mid _ _ hmid (by simpa [headSat] using hle))]
+  simp [skipWs_append_ws _ _ hmid, skipWs_cons_of_not_ws _ hl, hu]
+
+/-- **a repeated or misordered unit** (any case, any whitespace, after any well-formed beginning,
+    whatever follows): a piece of unit `v` after a piece of `v` or of a smaller unit -/
+theorem matchTrad_misordered (r : TradP) (wf : r.WF) (v : TUnit) (hfrom : r.hasFrom v = true)
+    (pb : Piece) (wb : pb.WF) (hb : pb.bare = false) (rest : List Char) :
+    matchTrad (r.text (pb.text v.lo v.up ++ rest)) = none ∧
+      matchIso (r.text (pb.text v.lo v.up ++ rest)) = none := by
+  refine ⟨?_, matchIso_tradP r wf _ (matchIso_piece pb wb _ _ _)⟩
+  have bl : ∀ isU, isU v.lo = false → isU v.up = false → Blocked isU (pb.text v.lo v.up ++ rest) :=
+    fun isU a b => blocked_piece isU v.lo v.up v.letters a b pb wb hb rest
+  have hne := skipWs_piece_ne_nil pb wb v.lo v.up rest
+  have last : ∀ (a : isS v.lo = false) (b : isS v.up = false),
+      ∃ g r', optGroupLast isS (skipWs (pb.text v.lo v.up ++ rest)) = (g, r') ∧ skipWs r' ≠ [] := by
+    intro a b
+    refine ⟨_, _, optGroupLast_piece_other isS v.lo v.up v.letters a b pb wb hb rest, ?_⟩
+    have hl : isWs (if pb.upper then v.up else v.lo) = false := by
+      cases pb.upper <;> simp [v.letters.lo_ws, v.letters.up_ws]
+    rw [skipWs_cons_of_not_ws _ hl]
+    exact List.cons_ne_nil _ _
+  apply matchTrad_bad_tail r wf _ ?_ ?_ ?_ hne ?_
+  · cases v with
+    | d => simp only [TradP.hasFrom, Bool.or_eq_true] at hfrom; grind
+    | h => exact Or.inr (Or.inr (Or.inr (Or.inr (bl isD (by decide) (by decide)))))
+    | m => exact Or.inr (Or.inr (Or.inr (Or.inr (bl isD (by decide) (by decide)))))
+    | s => exact Or.inr (Or.inr (Or.inr (Or.inr (bl isD (by decide) (by decide)))))
+  · cases v with
+    | h => simp only [TradP.hasFrom, Bool.or_eq_true] at hfrom; grind
+    | d => exact Or.inr (Or.inr (Or.inr (bl isH (by decide) (by decide))))
+    | m => exact Or.inr (Or.inr (Or.inr (bl isH (by decide) (by decide))))
+    | s => exact Or.inr (Or.inr (Or.inr (bl isH (by decide) (by decide))))
+  · cases v with
+    | m => simp only [TradP.hasFrom, Bool.or_eq_true] at hfrom; grind
+    | d => exact Or.inr (Or.inr (bl isM (by decide) (by decide)))
+    | h => exact Or.inr (Or.inr (bl isM (by decide) (by decide)))
+    | s => exact Or.inr (Or.inr (bl isM (by decide) (by decide)))
+  · cases v with
+    | s => exact Or.inl (by simpa [TradP.hasFrom] using hfrom)
+    | d => exact Or.inr (last (by decide) (by decide))
+    | h => exact Or.inr (last (by decide) (by decide))
+    | m => exact Or.inr (last (by decide) (by decide))
+
+/-- a number text with a fraction in front of anything that is not a digit -/
+theorem parseNum_text_frac (t : NumText) (wf : t.WF) (hfr : t.fr.isSome = true) (rest : List Char)
+    (hr : headSat (fun c => !c.isDigit) rest) : parseNum (t.text ++ rest) = some (t.num, rest) := by
+  obtain ⟨ip, fr⟩ := t
+  obtain ⟨hne, hip, hfrw⟩ := wf
+  simp only at hne hip hfrw hfr
+  cases ip with
+  | nil => exact absurd rfl hne
+  | cons d ds =>
+  cases fr with
+  | none => cases hfr
+  | some mf =>
+    obtain ⟨c, fd⟩ := mf
+    obtain ⟨hmk, hfne, hfd⟩ := hfrw
+    have hmd : c.isDigit = false := by
+      simp only [isMark, Bool.or_eq_true, beq_iff_eq] at hmk
+      rcases hmk with h | h <;> subst h <;> decide
+    have htd : takeDigits ((d :: ds) ++ (c :: (fd ++ rest))) = (d :: ds, c :: (fd ++ rest)) :=
+      takeDigits_append _ hip _ (by simp [headSat, hmd])
+    have htf : takeDigits (fd ++ rest) = (fd, rest) := takeDigits_append _ hfd _ hr
+    unfold parseNum
+    simp only [NumText.text, fracText, List.append_assoc, List.cons_append, htd] at htd ⊢
+    simp only [hmk, ↓reduceIte, htf]
+    cases fd with
+    | nil => exact absurd rfl hfne
+    | cons e es => simp [NumText.num, NumText.val, NumText.hasFrac, fracVal]
+
+/-- **a second decimal mark** directly behind a number that already has a fraction (`1.5.5`,
+    `1,5,5s`, `2h 3.4.5m` …), after any well-formed beginning, whatever follows -/
+theorem matchTrad_second_mark (r : TradP) (wf : r.WF) (w : List Char) (hw : allWs w)
+    (t : NumText) (wt : t.WF) (hfr : t.fr.isSome = true) (c : Char) (hc : isMark c = true)
+    (rest : List Char) :
+    matchTrad (r.text (w ++ (t.text ++ c :: rest))) = none ∧
+      matchIso (r.text (w ++ (t.text ++ c :: rest))) = none := by
+  have hcd : c.isDigit = false := by
+    simp only [isMark, Bool.or_eq_true, beq_iff_eq] at hc
+    rcases hc with h | h <;> subst h <;> decide
+  have hcw : isWs c = false := by
+    simp only [isMark, Bool.or_eq_true, beq_iff_eq] at hc
+    rcases hc with h | h <;> subst h <;> decide
+  have hsk : skipWs (w ++ (t.text ++ c :: rest)) = t.text ++ c :: rest := by
+    rw [skipWs_append_ws _ _ hw, NumText.text_skipWs _ wt]
+  have hp := parseNum_text_frac t wt hfr (c :: rest) (by simp [headSat, hcd])
+  have hiso : matchIso (w ++ (t.text ++ c :: rest)) = none := by
+    have := matchIso_digit t wt (c :: rest)
+    unfold matchIso at this ⊢
+    rw [skipWs_append_ws _ _ hw]; exact this
+  refine ⟨?_, matchIso_tradP r wf _ hiso⟩
+  have bl : ∀ isU : Char → Bool, isU c = false → Blocked isU (w ++ (t.text ++ c :: rest)) := by
+    intro isU hu
+    unfold Blocked
+    rw [hsk]
+    unfold optGroup
+    rw [hp]
+    simp [skipWs_cons_of_not_ws _ hcw, hu]
+  have hU : ∀ isU ∈ [isD, isH, isM, isS], isU c = false := by
+    simp only [isMark, Bool.or_eq_true, beq_iff_eq] at hc
+    intro isU hm
+    simp only [List.mem_cons, List.not_mem_nil, or_false] at hm
+    rcases hc with h | h <;> subst h <;> rcases hm with rfl | rfl | rfl | rfl <;> decide
+  apply matchTrad_bad_tail r wf _
+    (Or.inr (Or.inr (Or.inr (Or.inr (bl isD (hU isD (by simp)))))))
+    (Or.inr (Or.inr (Or.inr (bl isH (hU isH (by simp))))))
+    (Or.inr (Or.inr (bl isM (hU isM (by simp)))))
+  · rw [hsk]
+    intro h
+    have := text_ne_nil t wt (c :: rest)
+    rw [h] at this; cases this
+  · right
+    refine ⟨some t.num, c :: rest, ?_, ?_⟩
+    · rw [hsk]
+      unfold optGroupLast
+      rw [hp]
+      simp [skipWs_cons_of_not_ws _ hcw, hU isS (by simp)]
+    · rw [skipWs_cons_of_not_ws _ hcw]; exact List.cons_ne_nil _ _
+
+/-! ### the same for the ISO format -/
+
+theorem iblocked_og' (U V : Char) (hV : numEnd V = true) (hne : (V == U) = false)
+    (x : Option NumText) (wf : OWF x) (tail : List Char) (hb : x.isSome = true ∨ IBlocked U tail) :
+    IBlocked U (og V x ++ tail) := by
+  cases x with
+  | none =>
+    rcases hb with h | h
+    · cases h
+    · simpa [og] using h
+  | some t =>
+    unfold IBlocked
+    have e : og V (some t) ++ tail = t.text ++ (V :: tail) := by simp [og]
+    rw [e, optGroup_text false _ t (wf t rfl) _ (by simpa [headSat] using hV)]
+    simp [hne]
+
+theorem isoStage' (U : Char) (hU : numEnd U = true) (x : Option NumText) (wf : OWF x)
+    (tail : List Char) (hb : x = none → IBlocked U tail) :
+    optGroup false (· == U) (og U x ++ tail) = (x.map (·.num), tail) := by
+  cases x with
+  | none => simpa [og, IBlocked] using hb rfl
+  | some t =>
+    have e : og U (some t) ++ tail = t.text ++ (U :: tail) := by simp [og]
+    rw [e, optGroup_text false _ t (wf t rfl) _ (by simpa [headSat] using hU)]
+    simp
+
+theorem isEmpty_false_of_ne_nil {l : List Char} (h : l ≠ []) : l.isEmpty = false := by
+  cases l with
+  | nil => exact absurd rfl h
+  | cons c cs => rfl
+
+/-- behind the `T`: if no group that is still allowed can start at `tail` and `tail` is not blank,
+    there is no match -/
+theorem isoTime_bad_tail (y mo d : Option Num) (h m s : Option NumText)
+    (wh : OWF h) (wm : OWF m) (wsec : OWF s) (tail : List Char)
+    (hh : h.isSome = true ∨ m.isSome = true ∨ s.isSome = true ∨ IBlocked 'H' tail)
+    (hm : m.isSome = true ∨ s.isSome = true ∨ IBlocked 'M' tail)
+    (hs : s.isSome = true ∨ IBlocked 'S' tail)
+    (ht : skipWs tail ≠ []) :
+    isoTime y mo d (og 'H' h ++ (og 'M' m ++ (og 'S' s ++ tail))) = none := by
+  have eH := isoStage' 'H' (by decide) h wh (og 'M' m ++ (og 'S' s ++ tail)) (by
+    intro hn
+    rcases hh with c | c
+    · rw [hn] at c; cases c
+    · apply iblocked_og' 'H' 'M' (by decide) (by decide) m wm
+      rcases c with c | c
+      · exact Or.inl c
+      · exact Or.inr (iblocked_og' 'H' 'S' (by decide) (by decide) s wsec _ c))
+  have eM := isoStage' 'M' (by decide) m wm (og 'S' s ++ tail) (by
+    intro hn
+    rcases hm with c | c
+    · rw [hn] at c; cases c
+    · exact iblocked_og' 'M' 'S' (by decide) (by decide) s wsec _ c)
+  have eS := isoStage' 'S' (by decide) s wsec tail (by
+    intro hn
+    rcases hs with c | c
+    · rw [hn] at c; cases c
+    · exact c)
+  unfold isoTime
+  simp only [eH, eM, eS, isEmpty_false_of_ne_nil ht, Bool.false_eq_true, ↓reduceIte]
+
+/-- a beginning of an ISO duration string -/
+structure IsoP where
+  pre : List Char := []
+  y : Option NumText := none
+  mo : Option NumText := none
+  d : Option NumText := none
+  t : Bool := false
+  h : Option NumText := none
+  m : Option NumText := none
+  s : Option NumText := none
+
+namespace IsoP
+
+def text (r : IsoP) (tail : List Char) : List Char :=
+  r.pre ++ 'P' :: (og 'Y' r.y ++ (og 'M' r.mo ++ (og 'D' r.d ++
+    (if r.t then 'T' :: (og 'H' r.h ++ (og 'M' r.m ++ (og 'S' r.s ++ tail))) else tail))))
+
+def WF (r : IsoP) : Prop :=
+  allWs r.pre ∧ OWF r.y ∧ OWF r.mo ∧ OWF r.d ∧ OWF r.h ∧ OWF r.m ∧ OWF r.s
+
+/-- designator `V` may not follow any more: in the part of the string where the beginning ends
+    (date part, or time part behind the `T`), `V` or a later designator has been used already -/
+def Closed (r : IsoP) (V : Char) : Prop :=
+  if r.t then
+    (V = 'H' → (r.h.isSome || r.m.isSome || r.s.isSome) = true) ∧
+    (V = 'M' → (r.m.isSome || r.s.isSome) = true) ∧ (V = 'S' → r.s.isSome = true)
+  else
+    (V = 'Y' → (r.y.isSome || r.mo.isSome || r.d.isSome) = true) ∧
+    (V = 'M' → (r.mo.isSome || r.d.isSome) = true) ∧ (V = 'D' → r.d.isSome = true)
+
+end IsoP
+
+/-- If, where the beginning `r` ends, no group that is still allowed can start at `tail`, `tail` is
+    not blank and does not start with `T`, the ISO expression does not match. `blk U` says that the
+    group of designator `U` is excluded (a piece of `U` or later is there, or `tail` is no such group). -/
+theorem matchIso_bad_tail (r : IsoP) (wf : r.WF) (tail : List Char)
+    (hdig : headSat (fun c => c.isDigit) tail) (htne : tail ≠ [])
+    (hdate : r.t = false →
+      (r.y.isSome = true ∨ r.mo.isSome = true ∨ r.d.isSome = true ∨ IBlocked 'Y' tail) ∧
+      (r.mo.isSome = true ∨ r.d.isSome = true ∨ IBlocked 'M' tail) ∧
+      (r.d.isSome = true ∨ IBlocked 'D' tail))
+    (htime : r.t = true →
+      (r.h.isSome = true ∨ r.m.isSome = true ∨ r.s.isSome = true ∨ IBlocked 'H' tail) ∧
+      (r.m.isSome = true ∨ r.s.isSome = true ∨ IBlocked 'M' tail) ∧
+      (r.s.isSome = true ∨ IBlocked 'S' tail)) :
+    matchIso (r.text tail) = none := by
+  obtain ⟨wpre, wy, wmo, wd, wh, wm, wsec⟩ := wf
+  -- `tail` starts with a digit
+  obtain ⟨c0, t0, rfl⟩ : ∃ c t, tail = c :: t := by
+    cases tail with
+    | nil => exact absurd rfl htne
+    | cons c t => exact ⟨c, t, rfl⟩
+  have hc0 : c0.isDigit = true := by simpa [headSat] using hdig
+  have hsk : skipWs (c0 :: t0) ≠ [] := by
+    rw [skipWs_cons_of_not_ws _ (digit_not_ws hc0)]; exact List.cons_ne_nil _ _
+  have hT : (c0 == 'T') = false := by
+    cases h : (c0 == 'T') with
+    | false => rfl
+    | true =>
+      have : c0 = 'T' := by simpa using h
+      subst this; exact absurd hc0 (by decide)
+  unfold matchIso IsoP.text
+  rw [skipWs_append_ws _ _ wpre, skipWs_cons_of_not_ws _ (by decide)]
+  simp only [beq_self_eq_true, ↓reduceIte]
+  unfold isoAfterP
+  cases ht : r.t with
+  | true =>
+    obtain ⟨c1, c2, c3⟩ := htime ht
+    have bT : ∀ U R, IBlocked U ('T' :: R) := fun U R => iblocked_head U _ (by simp [headSat])
+    have eY := isoStage' 'Y' (by decide) r.y wy
+      (og 'M' r.mo ++ (og 'D' r.d ++ 'T' :: (og 'H' r.h ++ (og 'M' r.m ++ (og 'S' r.s ++ c0 :: t0)))))
+      (fun _ => iblocked_og 'Y' 'M' (by decide) (by decide) r.mo wmo _
+        (iblocked_og 'Y' 'D' (by decide) (by decide) r.d wd _ (bT _ _)))
+    have eMo := isoStage' 'M' (by decide) r.mo wmo
+      (og 'D' r.d ++ 'T' :: (og 'H' r.h ++ (og 'M' r.m ++ (og 'S' r.s ++ c0 :: t0))))
+      (fun _ => iblocked_og 'M' 'D' (by decide) (by decide) r.d wd _ (bT _ _))
+    have eD := isoStage' 'D' (by decide) r.d wd
+      ('T' :: (og 'H' r.h ++ (og 'M' r.m ++ (og 'S' r.s ++ c0 :: t0)))) (fun _ => bT _ _)
+    simp only [↓reduceIte, eY, eMo, eD, beq_self_eq_true]
+    exact isoTime_bad_tail _ _ _ r.h r.m r.s wh wm wsec _ c1 c2 c3 hsk
+  | false =>
+    obtain ⟨c1, c2, c3⟩ := hdate ht
+    have eY := isoStage' 'Y' (by decide) r.y wy (og 'M' r.mo ++ (og 'D' r.d ++ c0 :: t0)) (by
+      intro hn
+      rcases c1 with c | c
+      · rw [hn] at c; cases c
+      · apply iblocked_og' 'Y' 'M' (by decide) (by decide) r.mo wmo
+        rcases c with c | c
+        · exact Or.inl c
+        · exact Or.inr (iblocked_og' 'Y' 'D' (by decide) (by decide) r.d wd _ c))
+    have eMo := isoStage' 'M' (by decide) r.mo wmo (og 'D' r.d ++ c0 :: t0) (by
+      intro hn
+      rcases c2 with c | c
+      · rw [hn] at c; cases c
+      · exact iblocked_og' 'M' 'D' (by decide) (by decide) r.d wd _ c)
+    have eD := isoStage' 'D' (by decide) r.d wd (c0 :: t0) (by
+      intro hn
+      rcases c3 with c | c
+      · rw [hn] at c; cases c
+      · exact c)
+    simp only [Bool.false_eq_true, ↓reduceIte, eY, eMo, eD, hT, isEmpty_false_of_ne_nil hsk]
+
+theorem convert_syntax (cs : List Char) (h1 : matchTrad cs = none) (h2 : matchIso cs = none) :
+    convert cs = .error .syntax := by
+  unfold convert
+  rw [h1, h2]
+
+theorem headSat_digit_text (t : NumText) (wf : t.WF) (rest : List Char) :
+    headSat (fun c => c.isDigit) (t.text ++ rest) ∧ t.text ++ rest ≠ [] := by
+  obtain ⟨ip, fr⟩ := t
+  obtain ⟨hne, hip, _⟩ := wf
+  cases ip with
+  | nil => exact absurd rfl hne
+  | cons d ds => exact ⟨by simpa [NumText.text, headSat] using hip d (by simp), by simp [NumText.text]⟩
+
+theorem iblocked_text (U V : Char) (hV : numEnd V = true) (hne : (V == U) = false)
+    (b : NumText) (wb : b.WF) (rest : List Char) : IBlocked U (b.text ++ V :: rest) := by
+  have := iblocked_og' U V hV hne (some b) (by intro t ht; cases ht; exact wb) rest (Or.inl rfl)
+  simpa [og] using this
+
+theorem iblocked_second_mark (U : Char) (t : NumText) (wt : t.WF) (hfr : t.fr.isSome = true)
+    (c : Char) (hc : isMark c = true) (hU : (c == U) = false) (rest : List Char) :
+    IBlocked U (t.text ++ c :: rest) := by
+  have hcd : c.isDigit = false := by
+    simp only [isMark, Bool.or_eq_true, beq_iff_eq] at hc
+    rcases hc with h | h <;> subst h <;> decide
+  unfold IBlocked optGroup
+  rw [parseNum_text_frac t wt hfr (c :: rest) (by simp [headSat, hcd])]
+  simp [hU]
+
 end Edzed.TimeUnits
